@@ -139,6 +139,12 @@ def run(ck, cancels=False):
                               prefix=[["env1", 10000]])
     swept += _core.phase_tasks("retry", pp, [("env1", "env2"), ("env2", "env1")],
                                range(1, 50, 6 if quick else 1), range(1, 40, 7 if quick else 1), facts=facts_of(pp))
+    # a policy that retries on VALUES, cancelled around the end of an attempt: the stopped job is finalised with the
+    # outcome of its last attempt, whatever kind of outcome that was
+    pv = {"flavour": "manual", "policy": {"kind": "custom", "decisions": [[1, 100], [1, 100], [0, 100]]},
+          "jobs": [{"script": ["V", "V", "V"], "S": 0, "K": 300, "C": False}], "dur": 300, "horizon": 2500}
+    swept += _core.phase_tasks("retry", pv, [("env1", "can1"), ("can1", "env1")], range(1, 70, 2 if quick else 1),
+                               [10000] if quick else [10000, 5, 15], facts=facts_of(pv))
     # a delegate completion that looks its submission up while an earlier submission is being removed
     pq = {"flavour": "manual", "policy": POLICY,
           "jobs": [{"script": ["V"], "S": 0, "C": False}, {"script": ["E", "V"], "S": 0, "C": False},
